@@ -1,0 +1,12 @@
+//go:build verif
+// +build verif
+
+package balance
+
+import "time"
+
+// VerifSetNow overrides the clock of the pay-per-interval manager
+// (verification hook, only built with -tags verif).
+func (b *payPerInterval) VerifSetNow(now func() time.Time) {
+	b.now = now
+}
